@@ -3,7 +3,7 @@ EXTENDS Tree
 F(n, s) == [k |-> "file", n |-> n, size |-> s]
 L(n, to) == [k |-> "link", n |-> n, to |-> to]
 QLeaves == { F("f0", "empty"), F("f1", "small"), F("f2", "small"),        \* f1 and f2 have IDENTICAL content
-             F("uni", "small2"), F(".hid", "small2"), F("zt", "zerotail"),      \* zt: 256 KiB ending in 192 KiB of zeros F("fpb", "dirbytes"),     \* fpb: a file whose bytes are the block of an empty directory F("chunk", "onechunk"), F("big", "multichunk"), F("zeros", "repeatchunk"),
+             F("uni", "small2"), F(".hid", "small2"), F("zt", "zerotail"), F("long", "small"),       \* long: a name of 251 bytes (83 three-byte characters + 2)      \* zt: 256 KiB ending in 192 KiB of zeros F("fpb", "dirbytes"),     \* fpb: a file whose bytes are the block of an empty directory F("chunk", "onechunk"), F("big", "multichunk"), F("zeros", "repeatchunk"),
              L("l1", "rel"), L("l2", "rel"), L("labs", "abs"), L("ldang", "dangling"), L("lweird", "unclean") }
 QTopOnly == { [k |-> "manydir", n |-> "many", to |-> "entries"],     \* sharded (HAMT)
               [k |-> "manydir", n |-> "wide", to |-> "entries"] }     \* 5000 short names: the largest plain directory block, just below the sharding threshold
